@@ -478,6 +478,11 @@ func (s *Server) handleSession(clientMAC net.HardwareAddr, data []byte) {
 		return
 	}
 
+	// The PPPoE payload carries at least the 2-byte PPP protocol field and must fit in the frame
+	if hdr.Length < 2 || len(data) < 6+int(hdr.Length) {
+		return
+	}
+
 	session := s.sessions.GetSession(hdr.SessionID)
 	if session == nil {
 		return
